@@ -1,5 +1,5 @@
 /-
-  `validate` as a whole: nothing but MetainfoError outside the classes D07f / D07j, and what a
+  `validate` as a whole: nothing but MetainfoError outside the class D07f, and what a
   successful validation establishes.
 -/
 import Torf.Lemmas.ValidateMulti
@@ -37,7 +37,7 @@ theorem validateItems_cases {items : Items} {iv : PyVal}
       else if hasFiles then checkMulti fs (.dict items) info plen
       else throw .metainfo : Except ErrKind Unit) = r) :
     (r = .ok () → ValidFacts urlOk items) ∧
-    (∀ e, r = .error e → Small (.dict items) →
+    (∀ e, r = .error e →
       (∀ info fl, PyVal.lookupStr "info" items = some (.dict info) →
         PyVal.lookupStr "files" info = some fl → fl.isDict = false) →
       (fs.hasPath = true → ∀ info fl files, PyVal.lookupStr "info" items = some (.dict info) →
@@ -47,9 +47,9 @@ theorem validateItems_cases {items : Items} {iv : PyVal}
   simp only [bind, Except.bind, getE_ok (getItem_dict_s_some hiv)]
   cases h1 : checkCommon urlOk (.dict items) with
   | error e1 =>
-    refine ⟨fun h => absurd h (by simp), fun e h hs _ _ => ?_⟩
+    refine ⟨fun h => absurd h (by simp), fun e h _ _ => ?_⟩
     simp only [Except.error.injEq] at h; subst h
-    exact checkCommon_err urlOk hs h1
+    exact checkCommon_err urlOk h1
   | ok _ =>
     obtain ⟨info, cf⟩ := checkCommon_ok urlOk h1
     have : iv = .dict info := by
@@ -57,9 +57,9 @@ theorem validateItems_cases {items : Items} {iv : PyVal}
     subst this
     cases h2 : checkAnnounceList urlOk (.dict items) items with
     | error e2 =>
-      refine ⟨fun h => absurd h (by simp), fun e h hs _ _ => ?_⟩
+      refine ⟨fun h => absurd h (by simp), fun e h _ _ => ?_⟩
       simp only [Except.error.injEq] at h; subst h
-      exact checkAnnounceList_err urlOk hs cf.announceList h2
+      exact checkAnnounceList_err urlOk cf.announceList h2
     | ok _ =>
       have af := checkAnnounceList_ok urlOk cf.announceList h2
       obtain ⟨b, hb⟩ := cf.pieces
@@ -68,14 +68,14 @@ theorem validateItems_cases {items : Items} {iv : PyVal}
       · have e1 : (b.length == 0) = true := by simp [hz]
         simp only [e1, if_true]
         refine ⟨fun h => absurd h (by simp [throw, throwThe, MonadExceptOf.throw]),
-          fun e h _ _ _ => ?_⟩
+          fun e h _ _ => ?_⟩
         simpa [throw, throwThe, MonadExceptOf.throw, eq_comm] using h
       have e1 : (b.length == 0) = false := by simp [hz]
       by_cases h20 : ¬ b.length % 20 = 0
       · have e2 : (b.length % 20 != 0) = true := by simp [bne_iff_ne, h20]
         simp only [e1, e2, Bool.false_eq_true, if_false, if_true]
         refine ⟨fun h => absurd h (by simp [throw, throwThe, MonadExceptOf.throw]),
-          fun e h _ _ _ => ?_⟩
+          fun e h _ _ => ?_⟩
         simpa [throw, throwThe, MonadExceptOf.throw, eq_comm] using h
       have h20 : b.length % 20 = 0 := by omega
       have e2 : (b.length % 20 != 0) = false := by simp [h20]
@@ -84,7 +84,7 @@ theorem validateItems_cases {items : Items} {iv : PyVal}
         cases hF : (PyVal.lookupStr "files" info).isSome <;>
         simp only [Bool.and_true, Bool.and_false, Bool.false_eq_true, if_false, if_true]
       · refine ⟨fun h => absurd h (by simp [throw, throwThe, MonadExceptOf.throw]),
-          fun e h _ _ _ => ?_⟩
+          fun e h _ _ => ?_⟩
         simpa [throw, throwThe, MonadExceptOf.throw, eq_comm] using h
       · have hlen : PyVal.lookupStr "length" info = none := by
           cases hx : PyVal.lookupStr "length" info <;> simp_all
@@ -94,8 +94,8 @@ theorem validateItems_cases {items : Items} {iv : PyVal}
           have hnd := checkMulti_not_dict urlOk fs cf hp20 h
           exact ⟨info, b, cf, af, hb, hz, h20,
             .inr ⟨hlen, (checkMulti_cases urlOk fs cf _ hnd _ rfl).1 h, hnd⟩⟩
-        · intro e h hs hnm hjoin
-          exact (checkMulti_cases urlOk fs cf _ (hnm info · cf.hinfo) _ rfl).2 e h hs
+        · intro e h hnm hjoin
+          exact (checkMulti_cases urlOk fs cf _ (hnm info · cf.hinfo) _ rfl).2 e h
             (fun hp fl files hfl hfiles => hjoin hp info fl files cf.hinfo hfl hfiles)
       · have hfil : PyVal.lookupStr "files" info = none := by
           cases hx : PyVal.lookupStr "files" info <;> simp_all
@@ -103,10 +103,10 @@ theorem validateItems_cases {items : Items} {iv : PyVal}
         · intro h
           exact ⟨info, b, cf, af, hb, hz, h20,
             .inl ⟨hfil, (checkSingle_cases urlOk fs cf _ _ rfl).1 h⟩⟩
-        · intro e h hs _ _
-          exact (checkSingle_cases urlOk fs cf _ _ rfl).2 e h hs
+        · intro e h _ _
+          exact (checkSingle_cases urlOk fs cf _ _ rfl).2 e h
       · refine ⟨fun h => absurd h (by simp [throw, throwThe, MonadExceptOf.throw]),
-          fun e h _ _ _ => ?_⟩
+          fun e h _ _ => ?_⟩
         simpa [throw, throwThe, MonadExceptOf.throw, eq_comm] using h
 
 theorem ensureInfo_cases (md0 : Items) :
@@ -168,14 +168,14 @@ theorem pathsJoinable_spec {md0 : Items} (h : pathsJoinable md0 = true) :
     subst hi
     simp [PyVal.lookupStr] at hf
 
-/-- `validate()` raises nothing but MetainfoError outside the classes of the findings D07f
-    (`files` is a mapping; a content path with an unjoinable `path`) and D07j (numbers that hit
-    the int→str limit in the error message) -/
+/-- `validate()` raises nothing but MetainfoError outside the class of the finding D07f
+    (`files` is a mapping; a content path with an unjoinable `path`), for numbers of any size
+    (the messages are built with `safe_repr`: /repo 3420ff7 repaired D07j) -/
 theorem validate_err {md0 : Items} {e : ErrKind} (hnm : filesNotMapping md0 = true)
-    (hpj : fs.hasPath = false ∨ pathsJoinable md0 = true) (hs : numbersSmall md0 = true)
+    (hpj : fs.hasPath = false ∨ pathsJoinable md0 = true)
     (h : validate urlOk fs md0 = .error e) : e = .metainfo := by
   obtain ⟨iv, hiv⟩ := ensureInfo_lookup md0
-  refine (validateItems_cases urlOk fs hiv _ h).2 e rfl (ensureInfo_small hs)
+  refine (validateItems_cases urlOk fs hiv _ h).2 e rfl
     (filesNotMapping_spec hnm) (fun hp info fl files hi hf hfiles => ?_)
   rcases hpj with hpj | hpj
   · rw [hp] at hpj; exact absurd hpj (by simp)
@@ -196,10 +196,8 @@ theorem validate_ok {md0 : Items} (h : validate urlOk fs md0 = .ok ()) :
     obtain ⟨v, hv, _⟩ := cf.name
     simp [PyVal.lookupStr] at hv
 
-theorem outside_spec {md0 : Items} (h : outsideD07fD07j fs md0 = true) :
-    filesNotMapping md0 = true ∧ (fs.hasPath = false ∨ pathsJoinable md0 = true) ∧
-      numbersSmall md0 = true := by
-  simp only [outsideD07fD07j, Bool.and_eq_true, Bool.or_eq_true, Bool.not_eq_true'] at h
-  exact ⟨h.1.1, h.1.2, h.2⟩
+theorem outside_spec {md0 : Items} (h : outsideD07f fs md0 = true) :
+    filesNotMapping md0 = true ∧ (fs.hasPath = false ∨ pathsJoinable md0 = true) := by
+  simpa only [outsideD07f, Bool.and_eq_true, Bool.or_eq_true, Bool.not_eq_true'] using h
 
 end Torf.Validate
